@@ -189,6 +189,58 @@ def _loop_calls(b, blocks):
             yield bb, t
 
 
+def _sites(cx, b):
+    """atomic sites of a body; a helper body that was inlined into its callers is no longer in the summaries but still an
+    instance of the call graph"""
+    r = cx.summ.sites_by_body.get(b.key)
+    if r is None:
+        memo = cx.__dict__.setdefault('_extra_sites', {})
+        r = memo.get(b.key)
+        if r is None:
+            r = [U.Site(b, bb, t) for bb, t in b.calls() if U.is_atomic_callee(t['callee'])]
+            memo[b.key] = r
+    return r
+
+
+def _expected_tracks_observed(b, s, tail, head, blocks):
+    """A failed exchange means somebody else moved the value only if what the exchange EXPECTS is what was last seen there. With
+    a variable that is the rule already (expected := the failure value / a fresh read). With a CONSTANT expected value the loop may
+    only go round while the last observation equals that constant: `while seen == C { match x.compare_exchange(C, ..) { Err(v) =>
+    seen = v } }`. `while seen >= C` spins for ever on a value that is not C (no one has to change it)."""
+    exp = s.arg(1)
+    c = U.int_of(b, exp)
+    if c is None:
+        # a variable: it has to be read in this iteration. A copy taken before the loop (a closure that captured the loop variable by
+        # value when it was built) keeps expecting the value of the first look while the loop variable moves on.
+        op, outside = exp, False
+        for _ in range(8):
+            if op is None or op.get('k') not in ('copy', 'move') or op['place']['proj']:
+                return True
+            l = op['place']['local']
+            ds = b.assigns().get(l, [])
+            if len(ds) == 1 and ds[0][2] == 'stmt' and not ds[0][4] and ds[0][3]['k'] == 'use' and ds[0][3]['op'].get('k') in ('copy', 'move') \
+                    and not ds[0][3]['op']['place']['proj']:
+                outside = outside or ds[0][0] not in blocks
+                op = ds[0][3]['op']
+                continue
+            return not (outside and any(x[0] in blocks for x in ds))
+        return True
+    # the branch in the loop that dominates the exchange: local == C taken on the equal outcome, local carried from the failure value
+    for (sbb, succ, val) in U.dominating_branches(b, s.bb, unwind=False):
+        if sbb not in blocks:
+            continue
+        r = U.bool_outcome(b, sbb, val)
+        if not r or not r[0] or r[0][0] != 'rv' or r[0][3]['k'] != 'binop':
+            continue
+        rv, truth = r[0][3], r[1]
+        if not ((rv['op'] == 'Eq' and truth) or (rv['op'] == 'Ne' and not truth)):
+            continue
+        for x, y in ((rv['l'], rv['r']), (rv['r'], rv['l'])):
+            if U.int_of(b, y) == c and any(o == ('call', s.bb) for o in b.origins(x, fields=True)):
+                return True
+    return False
+
+
 def classify_back_edge(cx, b, tail, head):
     """returns (class, detail) or (None, why)"""
     blocks = b.natural_loop(tail, head)
@@ -211,11 +263,14 @@ def classify_back_edge(cx, b, tail, head):
     if r:
         return ('L-CONST', r)
     # ---- L-CAS: the tail is reachable only through the failure outcome of a CAS in the loop
-    cas_sites = [s for s in cx.summ.sites_by_body.get(b.key, ()) if s.op.startswith('compare_exchange') and s.bb in blocks]
+    cas_sites = [s for s in _sites(cx, b) if s.op.startswith('compare_exchange') and s.bb in blocks]
     for s in cas_sites:
         if not b.dominates(s.bb, tail):
             continue
         fail_only = _reached_only_on_cas_failure(b, s, tail, head, blocks)
+        if fail_only and not _expected_tracks_observed(b, s, tail, head, blocks):
+            return (None, 'retries a failed %s on %s whose expected value is the constant %s while the value last seen there need not be that constant: '
+                    'the exchange then fails without anybody else having made progress' % (s.op, s.cls, U.int_of(b, s.arg(1))))
         if fail_only:
             return ('L-CAS', 'back edge only after a failed %s on %s at %s' % (s.op, s.cls, s.loc))
     # ---- L-CHANGED: guarded by "two reads of the same atomic differ"; loop variable := newer read
@@ -450,7 +505,7 @@ def rule_next_once(fx, col):
                     org = b.origins(d['local'])
                     fresh = any(o[0] == 'call' and U.callee_name(b.term(o[1])) == 'leak' for o in org) and all(o[0] == 'call' for o in org)
                     # no write after a successful publish
-                    pubs = [s for s in cx.summ.sites_by_body.get(b.key, ()) if s.cls == 'list_head' and s.op.startswith('compare_exchange')]
+                    pubs = [s for s in _sites(cx, b) if s.cls == 'list_head' and s.op.startswith('compare_exchange')]
                     from .protect import _on_cas_success
                     after = any(_on_cas_success(b, s, bb) for s in pubs)
                     col.add('NEXT-ONCE', '%s|write Node.next' % b.fname, fresh and not after and bool(pubs),
@@ -568,7 +623,7 @@ def rule_loop_free(fx, col):
         # compare_exchange_weak outside any loop may fail spuriously and must not exist on a read
         b = g.body_of.get(i)
         if b is not None:
-            for s in cx.summ.sites_by_body.get(b.key, ()):
+            for s in _sites(cx, b):
                 if s.op == 'compare_exchange_weak':
                     in_loop = any(s.bb in bl for h, bl, tl in b.loops())
                     col.add('LOOP-FREE', '%s|weak-cas' % b.fname, False if not in_loop else False,
@@ -581,7 +636,7 @@ def rule_loop_free(fx, col):
     for i in seen:
         b = g.body_of.get(i)
         if b is not None and b.crate is fx.lib:
-            n_at += len([s for s in cx.summ.sites_by_body.get(b.key, ()) if s.op != 'new'])
+            n_at += len([s for s in _sites(cx, b) if s.op != 'new'])
     stats['atomic_sites_reachable'] = n_at
     col.ok('LOOP-FREE', 'summary', 'reader graph: %(instances)d instances from %(roots)d roots, %(loops)d loop(s) in %(loop_fns)s, %(atomic_sites_reachable)d atomic sites' % stats)
     return stats
@@ -634,6 +689,29 @@ def rule_loop_class(fx, col):
                         'a debt slot is read inside a loop of class %s (debts are paid, never awaited)' % sorted(str(k) for k in kinds), s.loc)
 
 
+def _strip_closure_names(s):
+    """a closure type prints as `{closure@<path of the enclosing function>...}`: the path names where it was written, not what it
+    owns (its captures are separate drop-glue instances)"""
+    out, i = [], 0
+    while i < len(s):
+        if s.startswith('{closure@', i):
+            depth, j = 0, i
+            while j < len(s):
+                if s[j] == '{':
+                    depth += 1
+                elif s[j] == '}':
+                    depth -= 1
+                    if depth == 0:
+                        break
+                j += 1
+            out.append('{closure}')
+            i = j + 1
+        else:
+            out.append(s[i])
+            i += 1
+    return ''.join(out)
+
+
 def rule_never_freed(fx, col):
     g = graph(fx)
     roots = root_groups(fx, ('default', 'fill', 'rwlock'), ('r', 'g', 'a', 'k', 'w', 'c', 'f', 's'))
@@ -643,7 +721,7 @@ def rule_never_freed(fx, col):
     for i in sorted(seen):
         inst = g.inst[i]
         dt = inst.get('drop_ty')
-        if dt and pat.search(dt) and 'NodeReservation' not in dt and 'LocalNode' not in dt:
+        if dt and pat.search(_strip_closure_names(dt)) and 'NodeReservation' not in dt and 'LocalNode' not in dt:
             bad += 1
             col.fail('NEVER-FREED', 'drop glue|%s' % dt, 'drop glue of %s is reachable: debt nodes must live forever (guards hold &\'static Debt)' % dt, path=g.chain(parent, i))
         if not inst.get('walked') and inst['path'] in ('<std::boxed::Box<T, A> as std::ops::Drop>::drop', 'std::boxed::Box::<T>::from_raw', 'std::ptr::drop_in_place', 'std::alloc::dealloc'):
